@@ -88,3 +88,26 @@ package publicationpb
 //@   track InterceptAfter
 //@   track InterceptBefore
 //@   ensures [after-merge] calls(InterceptAfter) == old(calls(InterceptAfter)) + 1 && calls(InterceptBefore) == old(calls(InterceptBefore)) && opt == lastcall(InterceptAfter)
+//@
+//@ property C14
+//@ // ---- the one Update of this server that the C14 template (verif_contracts_c14.go) does not fit: the optimistic version
+//@ // check travels into the write as an expected-value check.  "An Update rejected with any error status leaves Get
+//@ // unchanged": a stale version is refused BY THE CHECK, inside the write and before anything is stored, and the model's
+//@ // verdict (the stored publication, or the error and nothing) goes back unchanged: the server never turns a committed
+//@ // write into an error or an error into an answer ----
+//@ func (*ModelServer).UpdatePublication$1(msg) (err)
+//@   requires isPub(msg) && request != nil
+//@   ensures [stale-refused] request.Version != "" && pubOf(msg).Version != request.Version ==> err != nil
+//@   ensures [current-accepted] request.Version == "" || pubOf(msg).Version == request.Version ==> err == nil
+//@   modifies nothing
+//@
+//@ func (*ModelServer).UpdatePublication(ctx, request) (res, err)
+//@   requires recv != nil && recv.model != nil && request != nil && request.Publication != nil
+//@   track UpdatePublication
+//@   track WithExpectedCheck
+//@   letold noid := request.Publication.Id == ""
+//@   ensures [id-required] noid ==> err != nil && res == nil && calls(UpdatePublication) == old(calls(UpdatePublication))
+//@   ensures [forwarded] !noid ==> calls(UpdatePublication) == old(calls(UpdatePublication)) + 1 && lastarg(UpdatePublication, 0) == old(recv.model) &&
+//@   |   lastarg(UpdatePublication, 1) == old(request.Publication.Id) && lastarg(UpdatePublication, 2) == old(request.Publication)
+//@   ensures [checked] !noid ==> calls(WithExpectedCheck) == old(calls(WithExpectedCheck)) + 1
+//@   ensures [answer] !noid ==> res == lastcall(UpdatePublication, 0) && err == lastcall(UpdatePublication, 1)
